@@ -102,7 +102,8 @@ class Rate1Data(BitsInterface):
         return CRC9.calculate_from_parts(
             data=self.data,
             serial_number=self.dbsn,
-            crc32=self.crc32,
+            # message CRC-32 is part of the last block only (also when its value is 0)
+            crc32=self.crc32 if self.is_last_block() else None,
             mask=CrcMasks.Rate1DataContinuation,
         )
 
